@@ -78,10 +78,12 @@ PROPS = {
     },
     "C02": {
         "trusted_base": [
-            "the production planner itself (engine/core/optimize.go IndexStartOptimize, engine/inspect PipelineStepOutputs, pipeline.State.StepLoadData) is NOT modelled in Coq yet: it is compared, on every run, with the literal semantics of Model/Traversal.v (the C01 model), on kvgraph and on a harness backend that honours the load hint for vertices",
+            "modelled, not verified: engine/core/optimize.go IndexStartOptimize + extractHasVals + dedupStringSlice as Model/Optimize.v (hand-written; compared structurally with the Go function's output on ~1,400 programs per run); LookupVertsIndex is read as 'for every label, the vertices carrying it' (what kvgraph's VertexLabelScan + GetVertexChannel deliver, compared on every run through the production pipeline)",
+            "modelled, not verified: engine/inspect PipelineSteps / PipelineAsSteps(all steps of a name) / PipelineStepOutputs / statementFields / hasExpressionFields / templateFields and pipeline.State.StepLoadData as Model/LoadPlan.v (hand-written; compared with the Go functions' tables on ~1,600 programs per run), for the statements of the C01 model",
+            "NOT modelled: what a processor or backend does with the load flag (GetVertexList(load), lookups with load=false, Convert's lazy reload): compared, on every run, with the literal semantics of Model/Traversal.v on kvgraph and on a harness backend that honours the load hint for vertices",
             "same trusted base as C01 for the literal semantics",
         ],
-        "assumptions": ["label index entries agree with vertex labels (C03; known findings 1 and 3 of C03 are the exceptions)"],
+        "assumptions": ["label index entries agree with vertex labels (C03; known findings 1 and 3 of C03 are the exceptions)", "vertex ids are unique within a graph (a key-value store holds one record per key; C03)"],
     },
     "C19": {
         "trusted_base": [
